@@ -2,7 +2,7 @@ import vlib
 
 class P(vlib.Prop):
     id = "C20"
-    watch = ("pkg/apk/apk/transport.go", "pkg/apk/apk/cache.go")
+    watch = ("pkg/apk/apk/transport.go", "pkg/apk/apk/cache.go", "pkg/apk/apk/index.go")
     rule = ("scripted stage: hand-picked corners (cuts at 0 / mid-read / after the last byte, three failures in one Read, resets that fail, "
             "eager EOF, restarts cut while discarding, the 416 corner, close-delimited responses closed early, error responses without a body, "
             "two faults in one Read survived), then every single-fault and a grid of double-fault scripts over a 13-byte body x 3 server kinds x 3 "
@@ -16,11 +16,16 @@ class P(vlib.Prop):
             "while the connection is cut at offset 0 / 1 / mid / last byte / after the last chunk, the GET answered 503, close-delimited responses closed cleanly), every download followed by a fault-free one over the "
             "same cache directory, which must deliver the server's bytes; on the cached path the cache directory is inspected after each download (content under the etag's name, temporary files no advertised "
             "name points to) and results and directory are compared with Model/TransportCache.v. "
+            "Retry exhaustion is a class of its own in every stage (wave 3): budget, budget+1 and budget+2 failing body reads in a row, resumptions answered 4xx/5xx or failing at connection level after "
+            "0, 1, 2 good resumptions, a back-end that rejects Range - for first responses with Content-Length, without a length but framed (chunked), and close-delimited; through FetchPackage's consumer loop "
+            "(http stage), fetchRepositoryIndex over real HTTP without and with the cache (index stage), and (callers stage) the real fetchRepositoryIndex = RoundTrip + status test + io.ReadAll + the decision about "
+            "ReadAll's error over the scripted transport, compared with Model/TransportCallers.v for bodies below ReadAll's first buffer size; verdict everywhere: an error or exactly the server's bytes. "
             "A case is non-trivial when its script contains at least one fault; distinct = distinct case terms.")
     stages = (
         dict(name="scripted", cmd="c20", args=lambda t, s: ["-stage", "scripted"]),
         dict(name="http", cmd="c20", args=lambda t, s: ["-stage", "http"]),
         dict(name="index", cmd="c20", args=lambda t, s: ["-stage", "index"]),
+        dict(name="callers", cmd="c20", args=lambda t, s: ["-stage", "callers"]),
     )
     assumptions = (
         "c20_faithful: every response is framed (Content-Length or chunked), so that net/http reports an early end of the connection as a non-EOF error; "
@@ -42,6 +47,9 @@ class P(vlib.Prop):
                   "exactly bytes=<progress>-, one value, none at 0) and c20_error_body_never_delivered (r.body never is the body of a non-200/206 response when a Read returns); both are facts about "
                   "the text - Set vs Add on the shared map, the order of `r.body = resp.Body` and the status test, the Close after a failed reset - which goextract reads on every run "
                   "(Generated/TransportShape.v, c20_text_as_modelled) and whose wrong variants are refuted in the model (c20_range_header_appended_refuted, c20_error_body_early_install_refuted). "
+                  "Callers: fetchRepositoryIndex is modelled as RoundTrip + status test + io.ReadAll (buffer sizes 512 - bytes read, bodies below 512 bytes) + the condition under which the read error is returned, "
+                  "which goextract reads (c20_callers_as_modelled); c20_index_fetch_complete_or_error: for every script, exhausted retries included, it terminates with an error or a prefix of the server's bytes, all of them "
+                  "when every response is framed; c20_index_read_error_dropped_refuted is the variant of seeded change C20-9. "
                   "Cached index download: c20_cached_download_complete_or_error / _twice (for every cut of a framed response: an error, nothing advertised, no temporary file left - or exactly the "
                   "server's bytes advertised and returned), c20_readall_complete_or_error. Refuted: a short body is never EOF without framing (c20_short_body_unframed_refuted = finding C20-F1; "
                   "c20_cached_short_body_unframed_refuted = finding C20-F2, where the short body stays in the cache). All about executable models tied to the code by per-Read differential "
